@@ -492,8 +492,8 @@ func init() {
 		Rule:        "(1) operation histories Next/Snapshot/Rollback/Commit (5..120 ops, rollback/commit only with an open snapshot) on the real TLexer over token-soup and corpus texts, every observer compared with a fresh plain scan after each op; (2) random parser expressions (depth 1..4) over Accept/Ok/And/Seq/OneOf/Choose/Any/SeparatedBy/SurroundedBy/Assert/Not/Drop/Fmap on a 4-symbol alphabet, run on the real TLexer from a random start token against an ordered-choice recogniser: accept/reject, result nodes, end position, following token, snapshot-stack balance. non-trivial = history with a rollback over >3 tokens / expression with >= 3 combinators on >3 tokens; distinct by (text, ops) / (expression, text).",
 		Assumptions: []string{"the grammar's own side conditions are respected by the generator: Choose ends in an Ok gate, Not only under Assert, Any/SeparatedBy iterations consume at least one token", "committed choice (a failing OnSuccess fails the whole Choose/Any) is taken from the package documentation as the recogniser's semantics"},
 		Families: []core.Family{
-			{Name: "tlexer", Count: countFn(40000, 4000000), Run: c13TLexer},
-			{Name: "comb", Count: countFn(150000, 15000000), Run: c13Comb},
+			{Name: "tlexer", Count: countFn(150000, 4000000), Run: c13TLexer},
+			{Name: "comb", Count: countFn(600000, 15000000), Run: c13Comb},
 		},
 		Floors: []core.Floor{{Key: "tlexer_ops", Quick: 1000000, Thor: 100000000}, {Key: "rollbacks", Quick: 100000, Thor: 10000000}, {Key: "accepted_parses", Quick: 30000, Thor: 3000000}, {Key: "consuming_parses", Quick: 10000, Thor: 1000000}, {Key: "rejected_parses", Quick: 20000, Thor: 2000000}, {Key: "tag:comb:", Quick: 10, Thor: 10}},
 	})
